@@ -150,10 +150,14 @@ def identity_table(ctx, rid):
     def atom_of(e):
         if isinstance(e, ast.Call) and not e.args:
             q = repo.call_target(f.module, f, e)
-            if q in ("os.getuid", "os.geteuid"):
+            if q == "os.getuid":
                 return "CURUID"
-            if q in ("os.getgid", "os.getegid"):
+            if q == "os.geteuid":
+                return "CUREUID"
+            if q == "os.getgid":
                 return "CURGID"
+            if q == "os.getegid":
+                return "CUREGID"
         if isinstance(e, ast.Call) and repo.call_target(f.module, f, e) == "pwd.getpwuid":
             return "PWENT"          # the configured user has a passwd entry (the other case is the KeyError clause's)
         return None
@@ -167,8 +171,13 @@ def identity_table(ctx, rid):
     for uid in (0, 33):
         for gid in (0, 33):
             for init in (False, True):
-                for cu, cg, known in ((0, 0, True), (0, 33, True), (33, 0, True), (33, 33, True), (0, 0, False), (0, 33, False)):
+                # (cu, cg) are the master's *real* ids -- what setuid/setgid must change: real, effective and saved id all have to
+                # be the configured ones.  The last rows: a master whose effective gid already is the configured group while its
+                # real and saved gid are root's (started through a set-gid launcher, or after a bare setegid)
+                for cu, cg, known, eg in ((0, 0, True, None), (0, 33, True, None), (33, 0, True, None), (33, 33, True, None), (0, 0, False, None), (0, 33, False, None), (0, 0, True, 33)):
                     if True:
+                        if eg is not None and gid != eg:
+                            continue
                         if cu != 0 and (uid not in (0, cu) or gid not in (0, cg)):
                             continue          # an unprivileged master cannot be configured to change identity
                         if not known and not (init and uid):
@@ -176,9 +185,10 @@ def identity_table(ctx, rid):
                         n += 1
                         from ..absint import Raises
                         pwent = SpecObj(pw_name="user%d" % uid, pw_uid=uid, pw_gid=gid) if known else Raises("KeyError")
-                        outs = Explorer(f, atom_of=atom_of, call_trace=traces).run(g.entry, {UID: uid, GID: gid, INIT: init, "CURUID": cu, "CURGID": cg, "PWENT": pwent})
+                        outs = Explorer(f, atom_of=atom_of, call_trace=traces).run(g.entry, {UID: uid, GID: gid, INIT: init, "CURUID": cu, "CURGID": cg, "CUREUID": cu, "CUREGID": cg if eg is None else eg, "PWENT": pwent})
                         outs = [o for o in outs if o.kind == "return"]
-                        row = "uid=%s gid=%s initgroups=%s, running as %s:%s%s" % (uid, gid, init, cu, cg, "" if known else ", uid %s has no passwd entry" % uid)
+                        row = "uid=%s gid=%s initgroups=%s, running as %s:%s%s%s" % (uid, gid, init, cu, cg, "" if known else ", uid %s has no passwd entry" % uid,
+                                                                                         "" if eg is None else " (effective gid %s)" % eg)
                         ctx.need(outs, "%s: set_owner_process has no normal outcome for %s" % (rid, row))
                         for o in outs:
                             tr = [(q.split(".")[-1], v) for q, v in o.env.get(Explorer.TRACE, ())]
@@ -207,7 +217,7 @@ def identity_table(ctx, rid):
                             us = [i for i, q in enumerate(names_) if q in ("setuid", "setreuid", "setresuid")]
                             if us and any(q in ("setgid", "initgroups", "setgroups", "setregid", "setresgid") for q in names_[us[0]:]):
                                 problems.append("a group call follows setuid (it would fail with EPERM)")
-                            ctx.check(rid, not problems, key(f, "identity-table|%s|%s|%s|%s|%s" % (uid, gid, init, cu, cg)), site(f, text=row),
+                            ctx.check(rid, not problems, key(f, "identity-table|%s|%s|%s|%s|%s" % (uid, gid, init, cu, cg) + ("" if eg is None else "|eg=%s" % eg)), site(f, text=row),
                                       "set_owner_process with %s makes the calls %s: %s" % (row, tr, "; ".join(problems)), "calls %s" % (tr,))
     ctx.count("identity table rows", n)
 
@@ -238,14 +248,12 @@ def r4(ctx):
             if c and getter in norm(t.ast) and var in names(t.ast) and c[1] in (ast.NotEq, ast.Eq):
                 out.append((t, "false" if c[1] is ast.NotEq else "true"))      # already that id
         return out
-    p = g.path(g.entry, [g.exit], without_nodes=setg, without_edges=exempt_edges(GID, "getgid"), follow_exc=True)
-    ctx.check("C20.R4", bool(setg) and p is None, key(f, "primary-group-set"), site(f),
-              "a path through set_owner_process with a group configured never calls os.setgid(): with initgroups on, only os.initgroups() runs, which sets the supplementary "
-              "groups but leaves the real/effective/saved gid of the master (root) in place", "os.setgid on every path with a (different) gid", path=p and g.fmt_path(p))
+    # (that the primary group / the user is really changed whenever a different one is configured -- os.initgroups only sets the
+    # *supplementary* list -- is decided by the evaluated identity table above, rows gid != current / uid != current, however
+    # the tests are written: inline, hoisted into flags, or in a helper)
+    ctx.check("C20.R4", bool(setg), key(f, "primary-group-set"), site(f), "set_owner_process never calls os.setgid()", "os.setgid present")
     setu = [n for c in calls_to(repo, f, ["os.setuid", "os.setreuid", "os.setresuid"]) for n in nodes_with(f, c)]
-    p = g.path(g.entry, [g.exit], without_nodes=setu, without_edges=exempt_edges(UID, "getuid"), follow_exc=False)
-    ctx.check("C20.R4", bool(setu) and p is None, key(f, "user-set"), site(f), "a path with a (different) uid configured never calls os.setuid()", "os.setuid on every path with a (different) uid",
-              path=p and g.fmt_path(p))
+    ctx.check("C20.R4", bool(setu), key(f, "user-set"), site(f), "set_owner_process never calls os.setuid()", "os.setuid present")
     # setuid / setgid use the parameters
     for c in calls_to(repo, f, "os.setuid"):
         ctx.check("C20.R4", isinstance(c.args[0], ast.Name) and c.args[0].id == f.params[0], key(f, "setuid-arg"), site(f, c), "os.setuid is not given the uid parameter", "setuid(uid)")
